@@ -450,9 +450,13 @@ class C11(System):
         return True
 
     def _view_assignable(self, st):
-        """the partner's view object can be written into s: both single-phase, same package"""
+        """key forms through which the partner's VIEW OBJECT can be written into s (same package)"""
         tmo = fx.tmo()
-        return (not isinstance(st.s, tmo.MultiStream)) and (not isinstance(st.o, tmo.MultiStream)) and st.s.chemicals is st.o.chemicals
+        if st.s.chemicals is not st.o.chemicals: return ()
+        if isinstance(st.s, tmo.MultiStream):
+            return ('phase', 'phase_ids', 'phase_ellipsis')          # s.ivol[p] = view, s.ivol[p, IDs] = view, s.ivol[p, ...] = view
+        if isinstance(st.o, tmo.MultiStream): return ()
+        return ('attr', 'slice', 'idx', 'ellipsis')                  # s.vol = view, s.vol[:] = view, s.ivol[IDs] = view, s.ivol[...] = view
 
     def _targets(self, x):
         """(key for item writes) — one entry that is non-zero at the start, one that is zero."""
@@ -493,10 +497,9 @@ class C11(System):
                     acts.append(('reset_flow', u, None, other_phase)); acts.append(('reset_flow', u, 5.0, other_phase))
             for dim in ('mol', 'mass', 'vol'):
                 acts.append(('wall', dim, (0.375, 0.0, 2.5)))
-            if self._view_assignable(st):
+            for via in self._view_assignable(st):
                 for dim in ('mol', 'mass', 'vol'):
-                    for via in ('attr', 'slice', 'idx'):
-                        acts.append(('wview', dim, via))
+                    acts.append(('wview', dim, via))
             # indexer-level get_data / set_data: a unit used validly on its own view, and the same unit on the views of the other dimensions
             for view in ('mol', 'mass', 'vol'):
                 for u in HIST_UNITS:
@@ -518,8 +521,9 @@ class C11(System):
         acts.append(('set_flow', 2.0, 'L/min', p1, n1))
         acts.append(('set_total', 5.0, 'gal/min'))
         acts.append(('F', 'F_mass', 100.0))
-        if self._view_assignable(st):
-            acts += [('wview', 'vol', 'attr'), ('wview', 'vol', 'idx'), ('wview', 'mass', 'attr')]
+        forms = self._view_assignable(st)
+        if 'attr' in forms: acts += [('wview', 'vol', 'attr'), ('wview', 'vol', 'ellipsis'), ('wview', 'mass', 'attr')]
+        elif forms: acts += [('wview', 'vol', 'phase'), ('wview', 'vol', 'phase_ellipsis'), ('wview', 'mass', 'phase_ids')]
         acts += [('T', 350.0), ('T', 298.15), ('P', 5e5)]
         if multi:
             acts.append(('to_single', 'l'))
@@ -784,20 +788,35 @@ class C11(System):
         if op == 'wview':
             # the VALUE written is the partner's own view object (its factors belong to the partner's T, P and phase)
             _, dim, via = a
-            vals = [m * f_ for m, f_ in zip(bo.rows, bo.factor_rows(dim))][0]      # what the partner's view reads, in the unit of dim
-            src = getattr(o, dim)
+            # source: the partner's view (single-phase partner) or the liquid / last row of its multi-phase view
+            jo = 0 if not bo.multi else (bo.phases.index('l') if 'l' in bo.phases else len(bo.phases) - 1)
+            vals = (bo.rows[jo] * bo.factor_rows(dim)[jo])          # what the partner's view reads, in the unit of dim
+            if bo.multi:
+                oind = o.imol if dim == 'mol' else (o.imass if dim == 'mass' else o.ivol)
+                src = oind.data.rows[jo]
+            else:
+                src = getattr(o, dim)
+            ind = s.imol if dim == 'mol' else (s.imass if dim == 'mass' else s.ivol)
+            js = 0
             if via == 'attr': setattr(s, dim, src)
             elif via == 'slice': getattr(s, dim)[:] = src
+            elif via == 'idx': ind[bs.IDs] = src
+            elif via == 'ellipsis': ind[...] = src
             else:
-                ind = s.imol if dim == 'mol' else (s.imass if dim == 'mass' else s.ivol)
-                ind[bs.IDs] = src
+                ps = 'l' if 'l' in bs.phases else bs.phases[-1]
+                js = bs.phases.index(ps)
+                if via == 'phase': ind[ps] = src
+                elif via == 'phase_ids': ind[ps, bs.IDs] = src
+                else: ind[ps, ...] = src
             tr = Truth(s)
-            exp = [vals / bs.factor_rows(dim)[0]]
+            exp = [r.copy() for r in bs.rows]
+            exp[js] = vals / bs.factor_rows(dim)[js]
             if tr.phases != bs.phases or not all(close(p_, q_) for p_, q_ in zip(tr.rows, exp)):
                 raise Violation('write-effect', f'{a!r}: wrote the partner\'s {dim} view {vals.tolist()} (partner {bo.phases} T={bo.T} P={bo.P}) into s ({bs.phases} T={bs.T} P={bs.P}); '
                                 f'molar flows became {[r.tolist() for r in tr.rows]}, expected {[e.tolist() for e in exp]}',
                                 match=dict(op=op, dim=dim, via=via, kind=kind, shared_data=bool(shared)), residual=max(resid(p_, q_) for p_, q_ in zip(tr.rows, exp)) if tr.phases == bs.phases else None)
-            got = np.array(getattr(s, dim).to_array(), float)
+            ind = s.imol if dim == 'mol' else (s.imass if dim == 'mass' else s.ivol)
+            got = np.array((ind.data.rows[js] if bs.multi else ind.data).to_array(), float)
             if not close(got, vals, 1e-11):
                 raise Violation('write-readback', f'{a!r}: wrote {vals.tolist()}, the {dim} view of s reads {got.tolist()}', match=dict(op=op, dim=dim, via=via, kind=kind),
                                 residual=resid(got, vals))
